@@ -1,3 +1,12 @@
 #pragma once
 #include "c14y_b2s.h"
-unsigned g2_n; size_t g2_ob, g2_oi; uint8_t g2_val; uint32_t g2_t0, g2_t1, g2_f0, g2_f1; int g2_set; vc2_u64 g2_src;
+struct vc2_ghost g2s; size_t g2_ob, g2_oi;
+#ifdef VC_B2S_MEMCPY_MODEL
+/* byte-loop model of memcpy for copies of at most one 64-byte block (CBMC's built-in model with a symbolic length and a symbolic offset into the
+   state object did not finish: > 600 s, 8 GB); a longer copy fails the assertion */
+void *memcpy(void *dst, const void *src, size_t n) {
+	__CPROVER_assert(n <= 64, "memcpy model: at most one block");
+	for (size_t i = 0; i < 64; i++) { if (i < n) ((unsigned char *)dst)[i] = ((const unsigned char *)src)[i]; }
+	return dst;
+}
+#endif
